@@ -493,6 +493,23 @@ func eachCase(c *fw.Ctx, which map[string]bool, f func(sc streamCase)) {
 			}
 		}
 	}
+	// the same junk after the file name of an INCLUDE that stands in an included file (depth 2, 3)
+	if on("include") {
+		for _, jk := range []string{" extra", " // note", " /* n */", " # c", " \"q\"", "\t", " x y"} {
+			for depth := 2; depth <= 3; depth++ {
+				files := map[string]string{"root.jst": "JSIGHT 0.3\nINCLUDE f1.jst\nTYPE @r any\n"}
+				for d := 1; d < depth; d++ {
+					line := fmt.Sprintf("INCLUDE f%d.jst", d+1)
+					if d == depth-1 {
+						line += jk
+					}
+					files[fmt.Sprintf("f%d.jst", d)] = fmt.Sprintf("TYPE @t%d any\n%s\nTYPE @u%d any\n", d, line, d)
+				}
+				files[fmt.Sprintf("f%d.jst", depth)] = "TYPE @leaf any\n"
+				emit(streamCase{stream: "include", label: fmt.Sprintf("deep junk=%q depth=%d", jk, depth), proj: drv.Project{Root: "root.jst", Files: files}, opt: fixed})
+			}
+		}
+	}
 	// option sets over pool documents
 	if on("options") {
 		docSets(false, func(name string, blocks []doc.Block) {
@@ -655,6 +672,21 @@ func multiInstanceDocs() [][2]string {
 			// accepted documents with n entries in every collection
 			add(fmt.Sprintf("n-of-everything-%d", n), dupE+dupS+dupG+decl+"GET /ok"+pseg+"\n  Tags"+strings.ReplaceAll(tags, "@nopeT", "@g")+"\n  200 any\n")
 		}
+	}
+	// several faulty declarations of one kind that a single earlier declaration refers to: which
+	// one is reported must not depend on iteration order
+	for n := 2; n <= 3; n++ {
+		refs, decls := "", ""
+		for i := 0; i < n; i++ {
+			refs += fmt.Sprintf("    \"r%d\": @rx%d", i, i)
+			if i < n-1 {
+				refs += ","
+			}
+			refs += "\n"
+			decls += fmt.Sprintf("TYPE @rx%d regex\n  /[a-z(%d/\n", i, i)
+		}
+		add(fmt.Sprintf("invalid-regex-types-%d", n), "TYPE @user\n  {\n"+refs+"  }\n"+decls)
+		add(fmt.Sprintf("invalid-regex-types-used-later-%d", n), decls+"TYPE @user\n  {\n"+refs+"  }\n")
 	}
 	// lists with repetitions: every Tags list of length 2..4 over three declared tags that names some
 	// tag twice, at every level that takes a list (method, URL, JSON-RPC method); and the same for
